@@ -1,12 +1,40 @@
 """Per-property wording for MANIFEST.json."""
-HOOK_COMMITS = []
+HOOK_COMMITS = ["146c602"]
 NOTES = ("Technique: machine-checked proof in Coq 8.16.1 about a hand-written executable model, tied to /repo by a "
          "correspondence check (extracted OCaml model vs. the Go implementation on the same inputs) that runs on "
          "every check.  See DESIGN.md.")
 NOT_YET = {}
 COMMON_NOTE = ("Trusted: Coq kernel, ExtrOcamlBasic extraction, hand-written OCaml/Go glue; the model is hand-written and "
                "tied to /repo by differential execution (testing) on generated inputs, not by proof.")
+GW_NOTE = (COMMON_NOTE + " The gateway model is event-atomic (one packet/timer handled to completion); the Go scheduler, "
+           "paho's MQTT codec, errgroup/context and timers are assumed to behave as documented.")
 TEXT = {
+    "C20": {
+        "level": "Theorems C20_decoding_never_panics / C20_no_panic_site: in the decoder model every Go index and slice "
+                 "expression of Header.Unpack, ReadPacket and the 28 Unpack methods is an explicit bounds-checked access "
+                 "that yields Panic when Go would; the theorem shows no byte string reaches one (no length bound needed). "
+                 "The model is compared with ReadPacket under recover() on exhaustive short datagrams and structural/"
+                 "random streams on every run; a panic observed in the implementation is reported with the datagram.",
+        "note": COMMON_NOTE,
+        "technique": "Coq theorem over all byte strings (bounds-checked decoder model) + differential execution against packets1.ReadPacket",
+    },
+    "C21": {
+        "level": "Theorem C21_round_trip: for every packet value satisfying the boolean legal-range predicate wf_pkt, "
+                 "decoding the model's encoding returns the packet, the announced length equals the size, the short "
+                 "length form is used iff size <= 255, size <= 8192; C21_short_topic_bijection for all 65 536 IDs / all "
+                 "2-byte names. The encoder model (with uint16 wrap-around) is compared byte-for-byte with Pack on "
+                 "constructor-built packets of all 28 types on every run.",
+        "note": COMMON_NOTE,
+        "technique": "Coq theorem over all packet values in legal ranges + differential execution against Pack/ReadPacket",
+    },
+    "C14": {
+        "level": "Theorem C14_step: from ANY session state of the gateway model, a step writes an MQTT DISCONNECT only when "
+                 "the event is the client's DISCONNECT datagram without duration (hence for every history: C14_histories). "
+                 "The model is compared output-by-output with the real handler1 on generated session histories "
+                 "(including every termination cause) and the extracted checker runs on the implementation's trace.",
+        "note": GW_NOTE,
+        "technique": "Coq step lemma over all states/events of the gateway model + differential execution of handler1 under synctest",
+    },
     "C05": {
         "level": "Theorem C05_lookups_consistent (Properties/C05.v) proves, for every configuration, client ID, topic ID and "
                  "name, the by-ID precedence rule and that every ID GetTopicID can return under any map iteration order reads "
